@@ -39,14 +39,10 @@ impl<T: PartialEq> PartialEq for NumbatList<T> {
         if self.len() != other.len() {
             return false;
         }
-        // Second best case, the other slice comes from the same allocation and
-        // has the same view => they are equal
-        if Arc::ptr_eq(&self.alloc, &other.alloc) && self.view == other.view {
-            true
-        } else {
-            // Worst case scenario, we need to compare all the elements one by one
-            self.iter().zip(other.iter()).all(|(l, r)| l == r)
-        }
+        // Compare all the elements one by one. There is deliberately no shortcut for two
+        // lists sharing the same allocation and view: element equality is not necessarily
+        // reflexive (`NaN != NaN`), and the result must not depend on internal sharing.
+        self.iter().zip(other.iter()).all(|(l, r)| l == r)
     }
 }
 
